@@ -46,26 +46,29 @@ SPEC = dict(
     module="LMSampler.C16",
     harness_bin="sampler",
     ml_modules=["sampler_model"],
-    n={"quick": 300, "thorough": 3000},
+    n={"quick": 300, "thorough": 6000},
     search_n={"quick": 600, "thorough": 5000},
     nontrivial=nontrivial,
     histogram=histogram,
     rule="Corpus (15 documented-panic configurations, the 30-protein data set of the unit tests x 4, 3 edge "
          "cases) + generated runs: DNA (3/5) or protein, width 1..12, 2..12 sequences of length width..80 (1/25 "
-         "exactly the width, planted common word, wildcards), oops via Sampler::new / SamplerBuilder or zoops via "
+         "exactly the width, planted common word, wildcards; one case in twelve: 13..40 sequences of length up to "
+         "200, width up to 20), oops via Sampler::new / SamplerBuilder or zoops via "
          "the builder (seeds 2..n, sometimes > n; inertia none/0..11; patience none/0..24/200..1199; both setter "
          "orders), seeded StdRng, 300..400 calls of next() (thorough 300..600), dispatcher arm default/generic/"
          "sse2/avx2, wrap rows = width + {0,1,5}. Observed after construction and after EVERY call: "
          "count_matrix() cells and sequence count, background().frequencies() bit patterns, active_sequences(), "
          "active_starts(), verif_starts() (hook), Iteration.{z,step,counts}; the whole run twice (rerun=same); "
-         "count_symbols() and Index of every striped sequence. PROPFAIL = the extracted, proved-sound-and-complete "
+         "count_symbols() and Index of every striped sequence; wts= (scoring the hold-out with Iteration.pssm yields "
+         "exactly len-width+1 scores: the weights of update_holdout) and pssm= (Iteration.pssm is bit for bit "
+         "counts.to_freq(0.1).into_scoring(background of the alignment without z), recomputed from the data set). PROPFAIL = the extracted, proved-sound-and-complete "
          "checker check_C16 (binary32 frequencies replayed bit for bit) rejects the implementation's own "
          "observations; DIFF = the extracted model, replayed with the choice list read off the trace (z, new start, "
          "zoops accept/reject), does not reproduce a state, an iteration, the convergence or a panic. "
          "Non-trivial: the run moved at least one start and, in zoops mode, recruited at least one sequence "
          "(computed by the generator, field nt=moved:recruited:calls); distinct by configuration and data set.",
     trusted_base=[
-        "Coq 8.16.1 kernel (coqc); vm_compute only in the non-vacuity Examples; no native_compute; the 13 "
+        "Coq 8.16.1 kernel (coqc); vm_compute only in the non-vacuity Examples; no native_compute; all "
         "theorems of C16.v are closed under the global context (no axioms)",
         "extraction: ExtrOcamlBasic only (nat, N, Z, positive, list, option kept as extracted inductives); OCaml 4.13.1",
         "LMBase.IEEE binary32 division / integer conversion on Flocq 4.1 (used only to render the background "
